@@ -131,15 +131,20 @@ def validate(spec, traces, enforced, known=(), name='run', jvms=8, extra_consts=
                 }
     rejected = [i for i in range(n) if not results[i]['accepted']]
     if rejected and diagnose:
-        sub = [traces[i] for i in rejected[:200]]
-        done, reached, fails, st, tr = _run_shard(spec, os.path.join(base, 'diag'), sub, enforced, known, True,
-                                                  extra_consts)
-        for (j, gi) in enumerate(rejected[:200]):
-            line = results[gi]['reached'] + 1
-            names = sorted({nm for (ln, nm) in fails.get(j + 1, []) if ln == line})
-            results[gi]['clauses'] = names
-            if line <= len(traces[gi]):
-                results[gi]['failing_event'] = traces[gi][line - 1]
+        # second pass over the rejected traces only, with the failing clauses named
+        chunks = [rejected[k:k + 400] for k in range(0, len(rejected), 400)][:jvms]
+        with concurrent.futures.ThreadPoolExecutor(max_workers=len(chunks)) as pool:
+            futs = {pool.submit(_run_shard, spec, os.path.join(base, 'diag%d' % k), [traces[i] for i in chunk],
+                                enforced, known, True, extra_consts): chunk for (k, chunk) in enumerate(chunks)}
+            for fut in concurrent.futures.as_completed(futs):
+                chunk = futs[fut]
+                done, reached, fails, st, tr = fut.result()
+                for (j, gi) in enumerate(chunk):
+                    line = results[gi]['reached'] + 1
+                    names = sorted({nm for (ln, nm) in fails.get(j + 1, []) if ln == line})
+                    results[gi]['clauses'] = names
+                    if line <= len(traces[gi]):
+                        results[gi]['failing_event'] = traces[gi][line - 1]
     return {'results': results, 'states': states, 'transitions': trans, 'wall_s': time.time() - t0}
 
 
